@@ -79,13 +79,16 @@ Store(k, v, ts, dl) ==
 (* the limit requires - each further victim still chosen by the rule (an expired entry first, else the least    *)
 (* recently used) -, a value that cannot be allocated is dropped (the key's old entry is gone), and an          *)
 (* allocation failure inside the critical section empties the cache.                                            *)
-RECURSIVE EvictMore(_, _)
+\* every <<present, order>> reachable by further evictions: any subset of the expired entries (while expired entries exist
+\* any of them may be the next victim), and once ALL expired ones are gone the least recently used ones, from the tail.
+\* (Written without recursion: enumerating eviction ORDERS is factorial in the number of expired entries.)
+WithoutSet(O, S) == LET Keep(x) == x \notin S IN SelectSeq(O, Keep)
 EvictMore(P, O) ==
-    (IF limit = 0 \/ Cardinality(P) < limit THEN { <<P, O>> } ELSE {})
-    \cup (IF P = {} THEN {}
-          ELSE IF ExpiredIn(P) # {}
-               THEN UNION { EvictMore(P \ {k}, Without(O, k)) : k \in ExpiredIn(P) }
-               ELSE EvictMore(P \ {O[Len(O)]}, Without(O, O[Len(O)])))
+    LET E  == ExpiredIn(P)
+        A  == { <<P \ S, WithoutSet(O, S)>> : S \in SUBSET E }
+        O1 == WithoutSet(O, E)
+        B  == { << {O1[i] : i \in 1..(Len(O1) - n)}, SubSeq(O1, 1, Len(O1) - n) >> : n \in 1..Len(O1) }
+    IN { po \in A \cup B : limit = 0 \/ Cardinality(po[1]) < limit }
 
 StoreUnderPressure(k, v, ts, dl) ==
     LET P0 == present \ {k}
